@@ -87,6 +87,16 @@ def hash_programs(tier, paramset, P, seed):
         for k, v in enumerate(combos[::step][: (6 if tier == "quick" else 60)]):
             add("%s/sponge/%d/%d" % (paramset, n, k), "poseidon", v)
         add("%s/sponge/%d/rand" % (paramset, n), "poseidon", [rnd.randrange(P) for _ in range(n)])
+    # the SAME list object hashed twice (and a third time after another message): each call must equal the reference
+    for n in (0, 1, 3, 4, 5):
+        vals = [rnd.randrange(3) for _ in range(n)]
+        steps = [{"op": "new", "kind": "priv", "ty": "int", "v": v} for v in vals]
+        steps.append({"op": "peek", "a": {"l": [{"r": k} for k in range(n)]}})
+        for rep in range(3):
+            steps.append({"op": "hash", "which": "poseidon", "a": {"r": n}, "tag": "main%d" % rep})
+        for rep in range(3):
+            progs.append({"id": "%s/sponge/samelist/%d/%d" % (paramset, n, rep), "ign": False, "steps": steps,
+                          "meta": {"which": "poseidon", "vals": vals, "kind": "S", "paramset": paramset, "class": "%s/poseidon/%d/S" % (paramset, n), "expectok": True, "maintag": "main%d" % rep}})
     for n in (1, 4, 5):
         add("%s/sponge/bool/%d" % (paramset, n), "poseidon", [rnd.randint(0, 1) for _ in range(n)], kind="SB")
         add("%s/sponge/fxp/%d" % (paramset, n), "poseidon", [rnd.randint(-3, 3) for _ in range(n)], kind="F")
@@ -119,7 +129,8 @@ def cases_from(traces, P, pkey):
     cases = []
     for t in traces:
         m = t["meta"]
-        evs = [e for e in t["events"] if e.get("tag") == "main"]
+        mt = m.get("maintag", "main")
+        evs = [e for e in t["events"] if e.get("tag") == mt]
         e = evs[-1]
         vals = m["vals"]
         if m["kind"] == "F":
@@ -127,7 +138,7 @@ def cases_from(traces, P, pkey):
         out = []
         for x in e["res"]:
             out.append(x["v"] if x["k"] in ("pyint", "pybool") else x["m"])
-        ncons = sum(len(ev["ncons"]) for ev in t["events"] if ev.get("tag") == "main")
+        ncons = sum(len(ev["ncons"]) for ev in t["events"] if ev.get("tag") == mt)
         cases.append({"id": t["id"], "P": P, "kind": {"permute": "permute", "poseidon": "poseidon", "ggh": "ggh"}[m["which"]], "paramset": m["paramset"] or "nobackend",
                       "input": [int(v) for v in vals], "out": e["out"], "exc": e["exc"], "output": out, "ncons": ncons, "class": m["class"], "pkey": pkey,
                       "expectok": bool(m["expectok"]), "knownplainpath": False, "inkind": m["kind"]})
